@@ -23,19 +23,22 @@ Definition lstatus (A : list (list bool)) (last : option Z) (c : Z) (l : line) :
   end.
 
 (* hunks "Eq k; Del d; Ins i": the deletions and insertions between two kept lines are gathered,
-   deletions first (diffmatchpatch's canonical order) *)
-Fixpoint hunks (A : list (list bool)) (last : option Z) (c : Z) (seq : list line) (k d i : Z) : list (dop * Z) :=
+   deletions first (diffmatchpatch's canonical order).  o / n: the line is in the old / new version. *)
+Fixpoint hunks3 (o n : line -> bool) (seq : list line) (k d i : Z) : list (Z * Z * Z) :=
   match seq with
-  | [] => [(DEq, k); (DDel, d); (DIns, i)]
+  | [] => [(k, d, i)]
   | l :: r =>
-      match lstatus A last c l with
-      | LKeep => if 0 <? d + i then (DEq, k) :: (DDel, d) :: (DIns, i) :: hunks A last c r 1 0 0
-                 else hunks A last c r (k + 1) 0 0
-      | LDel => hunks A last c r k (d + 1) i
-      | LIns => hunks A last c r k d (i + 1)
-      | LNone => hunks A last c r k d i
+      match o l, n l with
+      | true, true => if 0 <? d + i then (k, d, i) :: hunks3 o n r 1 0 0 else hunks3 o n r (k + 1) 0 0
+      | true, false => hunks3 o n r k (d + 1) i
+      | false, true => hunks3 o n r k d (i + 1)
+      | false, false => hunks3 o n r k d i
       end
   end.
+Definition flat_hunks (ts : list (Z * Z * Z)) : list (dop * Z) :=
+  flat_map (fun kdi => [(DEq, fst (fst kdi)); (DDel, snd (fst kdi)); (DIns, snd kdi)]) ts.
+Definition hunks (A : list (list bool)) (last : option Z) (c : Z) (seq : list line) (k d i : Z) : list (dop * Z) :=
+  flat_hunks (hunks3 (old_alive A last) (aliveb A c) seq k d i).
 
 Definition old_exists (A : list (list bool)) (last : option Z) (seq : list line) : bool :=
   match last with None => false | Some o => path_exists A o seq end.
